@@ -22,7 +22,7 @@ from rv.gen import lastext
 
 ID = "C10"
 LEVEL = "exploration"
-RULE = ("(a) generated texts with non-ASCII header text from three repertoires (Latin-1 range, cp1252-only, Cyrillic/CJK) x channel "
+RULE = ("(a) generated texts with non-ASCII header text from four repertoires (Latin-1 range, cp1252-only, Cyrillic/CJK, Unicode/C0 line-separator look-alikes) x channel "
         "{str path, Path, open text file, StringIO, multi-line string} x stored form {utf-8 BOM autodetected; utf-8, utf-16 (BOM), "
         "utf-16-le, utf-16-be, latin-1, cp1252 with explicit encoding=} x line ends {LF, CRLF, CR (files only)} x engine; (b) "
         "histories of length 5..40 over {read(text_i, options_j), write, header mutation, in-place curve edit, deepcopy, to_json, "
@@ -46,6 +46,8 @@ REPERTOIRES = {
     "latin": ("SOCIÉTÉ PÉTROLIÈRE Ñandú", "°C", "Bohrlochgröße µ", ["utf-8-sig", "utf-8", "utf-16", "utf-16-le", "utf-16-be", "latin-1", "cp1252"]),
     "cp1252": ("Œuvre – 5 € “quoted”", "‰", "Šiauliai well", ["utf-8-sig", "utf-8", "utf-16", "utf-16-le", "utf-16-be", "cp1252"]),
     "wide": ("Скважина №7 深度", "м", "глубина 测井", ["utf-8-sig", "utf-8", "utf-16", "utf-16-le", "utf-16-be"]),
+    # characters str.splitlines() treats as line boundaries although text files and StringIO do not: they are ordinary header text
+    "linesep": ("Soci\x85t\u2028 NEL\x0bVT", "µ", "form\x0cfeed \u2029 PS \x1d\x1e end", ["utf-8-sig", "utf-8", "utf-16", "utf-16-le", "utf-16-be"]),
 }
 EOLS = {"LF": "\n", "CRLF": "\r\n", "CR": "\r"}
 READ_OPTS = [{}, {"engine": "normal"}, {"mnemonic_case": "preserve"}, {"null_policy": "none"}, {"ignore_header_errors": True},
